@@ -234,6 +234,11 @@ static void inc_lexically_normal (const char* abs_base, const char *name, char *
   /* process .. and . in the include header name */
   while (*from)
     {
+      if (*from == '/')		/* empty component (".//x"): not the end of the next component */
+        {
+          from++;
+          continue;
+        }
       if (!strncmp (from, "../", 3) || !strcmp (from, ".."))
         {
           if (*dest == 0)	/* including from above mudlib is NOT allowed */
@@ -257,8 +262,6 @@ static void inc_lexically_normal (const char* abs_base, const char *name, char *
 
           if (slash)
             {			/* from has 2 or more components */
-              while (*from == '/')	/* find the start */
-                from++;
               strncat (dest, from, slash - from);
               for (from = slash + 1; *from == '/'; from++);
             }
